@@ -32,6 +32,10 @@ def _fut_expected_ok(f):
         return e["type"] == exp[1] and list(e["args"]) == list(exp[2])
     if exp[0] == "unsendable":
         return d["state"] == "exception" and d["exc"]["type"] == exp[1]
+    if exp[0] == "exc_any":
+        # the task raised an exception instance that cannot be transported: its own future must fail (with whatever
+        # describes the failure), but not with an error that says the POOL is gone
+        return d["state"] == "exception" and d["exc"]["type"] not in ("BrokenProcessPool", "TerminatedWorkerError", "ShutdownExecutorError")
     return True  # 'special' outcomes are judged by their own clauses
 
 
